@@ -17,10 +17,12 @@ type c14Scenario struct {
 	Name     string     `json:"name"`
 	Sessions [][]string `json:"sessions"`
 	Repeat   int        `json:"repeat"`
+	// Fill: messages per mailbox at the start (0 = the tier's default)
+	Fill int `json:"fill,omitempty"`
 }
 
 func runC14(h *H) {
-	h.Rule("2..8 sessions on one server with the in-memory backend, each running its own command list concurrently (no synchronisation between sessions) over mailboxes A, B, C pre-filled with messages: targeted scenarios (COPY and MOVE in opposite directions between two mailboxes, expunge during fetch, LIST/STATUS during RENAME/DELETE/CREATE, LIST/LSUB during SUBSCRIBE/UNSUBSCRIBE, IDLE while another session appends, STORE during COPY) repeated many times, plus seeded random command mixes. Every command has a watchdog; a command that gets no tagged completion within the limit and a further grace period of 45 s is a stall (a deadlock never ends, a slow command does; mailboxes are re-created every 250 repetitions to keep them small): the histories of all sessions and a goroutine dump are the replay. With VERIF_RACE=1 the same run is executed by a -race build and race reports involving imapserver packages are violations. Non-trivial = at least two sessions ran a mutating command on a shared mailbox; distinct by scenario and seed.")
+	h.Rule("2..8 sessions on one server with the in-memory backend, each running its own command list concurrently (no synchronisation between sessions) over mailboxes A, B, C pre-filled with messages: targeted scenarios (COPY and MOVE in opposite directions between two mailboxes, expunge during fetch, LIST/STATUS during RENAME/DELETE/CREATE, LIST/LSUB during SUBSCRIBE/UNSUBSCRIBE, IDLE ended while another session stores flags on more messages than the idle channel holds, ENVELOPE of a message and of its copies fetched concurrently, STORE during COPY) repeated many times, plus seeded random command mixes. Every command has a watchdog; a command that gets no tagged completion within the limit and a further grace period of 45 s is a stall (a deadlock never ends, a slow command does; mailboxes are re-created every 250 repetitions to keep them small): the histories of all sessions and a goroutine dump are the replay. With VERIF_RACE=1 the same run is executed by a -race build and race reports involving imapserver packages are violations. Non-trivial = at least two sessions ran a mutating command on a shared mailbox; distinct by scenario and seed.")
 
 	var runScenario func(sc c14Scenario, src string)
 	runChunked := func(sc c14Scenario, src string) {
@@ -45,7 +47,11 @@ func runC14(h *H) {
 		setup := ms.dial(0)
 		setup.rc.cmd("LOGIN u p")
 		for _, m := range []string{"A", "B", "C"} {
-			for i := 0; i < h.Pick(12, 40); i++ {
+			fill := h.Pick(12, 40)
+			if sc.Fill > 0 {
+				fill = sc.Fill
+			}
+			for i := 0; i < fill; i++ {
 				flags := ""
 				if i%3 == 0 {
 					flags = `\Deleted`
@@ -94,6 +100,8 @@ func runC14(h *H) {
 								stall = true
 							}
 							_ = err
+						} else if line == "IDLE" {
+							stall, err = mc.idle(2*time.Millisecond, 10*time.Second)
 						} else {
 							_, _, stall, err = mc.run(line, 6*time.Second)
 						}
@@ -182,13 +190,18 @@ func runC14(h *H) {
 		rep, nrand = rep/6, nrand/3
 	}
 	scenarios := []c14Scenario{
-		{"copy-opposite", [][]string{{"SELECT A", "COPY 1:10 B"}, {"SELECT B", "COPY 1:10 A"}}, rep * 8},
-		{"move-opposite", [][]string{{"SELECT A", "MOVE 1:2 B", "NOOP"}, {"SELECT B", "MOVE 1:2 A", "NOOP"}}, rep},
-		{"copy-move-status", [][]string{{"SELECT A", "COPY 1:10 B"}, {"SELECT B", "MOVE 1 A"}, {"STATUS A (MESSAGES UNSEEN)", "STATUS B (MESSAGES)", `LIST "" *`}}, rep},
-		{"expunge-during-fetch", [][]string{{"SELECT A", "FETCH 1:* (FLAGS BODY.PEEK[])"}, {"SELECT A", `STORE 1:* +FLAGS (\Deleted)`, "EXPUNGE", "APPEND A"}, {"SELECT A", "UID FETCH 1:* FLAGS", "NOOP"}}, rep},
-		{"list-during-rename", [][]string{{`LIST "" *`, `LIST "" % RETURN (STATUS (MESSAGES))`, "STATUS C (MESSAGES)"}, {"RENAME C D", "RENAME D C"}, {"CREATE X", "DELETE X"}, {"SELECT C", "FETCH 1 FLAGS", "UNSELECT"}}, rep},
-		{"list-during-subscribe", [][]string{{`LIST "" *`, `LSUB "" *`, `LIST (SUBSCRIBED) "" *`}, {"SUBSCRIBE A", "UNSUBSCRIBE A", "SUBSCRIBE B"}, {"UNSUBSCRIBE B", "SUBSCRIBE C", `LIST "" % RETURN (SUBSCRIBED)`}}, rep},
-		{"store-during-copy", [][]string{{"SELECT A", `STORE 1:* +FLAGS (\Seen)`, `STORE 1:* -FLAGS (\Seen)`}, {"SELECT A", "COPY 1:5 C"}, {"SELECT C", "SEARCH SEEN", "UID SEARCH ALL"}}, rep},
+		{"copy-opposite", [][]string{{"SELECT A", "COPY 1:10 B"}, {"SELECT B", "COPY 1:10 A"}}, rep * 8, 0},
+		{"move-opposite", [][]string{{"SELECT A", "MOVE 1:2 B", "NOOP"}, {"SELECT B", "MOVE 1:2 A", "NOOP"}}, rep, 0},
+		{"copy-move-status", [][]string{{"SELECT A", "COPY 1:10 B"}, {"SELECT B", "MOVE 1 A"}, {"STATUS A (MESSAGES UNSEEN)", "STATUS B (MESSAGES)", `LIST "" *`}}, rep, 0},
+		{"expunge-during-fetch", [][]string{{"SELECT A", "FETCH 1:* (FLAGS BODY.PEEK[])"}, {"SELECT A", `STORE 1:* +FLAGS (\Deleted)`, "EXPUNGE", "APPEND A"}, {"SELECT A", "UID FETCH 1:* FLAGS", "NOOP"}}, rep, 0},
+		{"list-during-rename", [][]string{{`LIST "" *`, `LIST "" % RETURN (STATUS (MESSAGES))`, "STATUS C (MESSAGES)"}, {"RENAME C D", "RENAME D C"}, {"CREATE X", "DELETE X"}, {"SELECT C", "FETCH 1 FLAGS", "UNSELECT"}}, rep, 0},
+		{"list-during-subscribe", [][]string{{`LIST "" *`, `LSUB "" *`, `LIST (SUBSCRIBED) "" *`}, {"SUBSCRIBE A", "UNSUBSCRIBE A", "SUBSCRIBE B"}, {"UNSUBSCRIBE B", "SUBSCRIBE C", `LIST "" % RETURN (SUBSCRIBED)`}}, rep, 0},
+		// an idling session ends its IDLE while another session queues a burst of more updates than
+		// the idle notification channel holds
+		{"idle-during-burst", [][]string{{"SELECT A", "IDLE", "IDLE", "IDLE"}, {"SELECT A", `STORE 1:* +FLAGS.SILENT (\Seen)`, `STORE 1:* -FLAGS.SILENT (\Seen)`, "NOOP"}, {"STATUS A (MESSAGES)", "SELECT A", "NOOP"}}, rep / 10, 150},
+		// envelopes of a message and of its copy in another mailbox fetched concurrently
+		{"envelope-of-copies", [][]string{{"SELECT A", "COPY 1:* C", "FETCH 1:* (ENVELOPE)"}, {"SELECT C", "FETCH 1:* (ENVELOPE BODYSTRUCTURE)"}, {"SELECT A", "FETCH 1:* (ENVELOPE)", "UID FETCH 1:* (ENVELOPE RFC822.SIZE)"}}, rep / 4, 0},
+		{"store-during-copy", [][]string{{"SELECT A", `STORE 1:* +FLAGS (\Seen)`, `STORE 1:* -FLAGS (\Seen)`}, {"SELECT A", "COPY 1:5 C"}, {"SELECT C", "SEARCH SEEN", "UID SEARCH ALL"}}, rep, 0},
 	}
 	for _, sc := range scenarios {
 		runChunked(sc, "targeted")
